@@ -19,7 +19,7 @@ use proptest::prelude::*;
 use proptest::strategy::BoxedStrategy;
 use serde_json::{json, Value};
 
-pub const DIMS: [&str; 12] = ["capacity", "id", "alpha", "byte-value", "datum-length", "group-shape", "edges", "char", "vertex-count", "unread-count", "alias-pair", "big-image"];
+pub const DIMS: [&str; 13] = ["capacity", "id", "alpha", "byte-value", "datum-length", "group-shape", "edges", "char", "vertex-count", "unread-count", "alias-pair", "pairs", "big-image"];
 
 pub struct Scenario {
     pub cfg: Cfg,
@@ -92,6 +92,28 @@ pub fn points(dim: &str, thorough: bool, prop: &str) -> Vec<u64> {
         "unread-count" => (0..4u64).flat_map(|var| (2..=16u64).flat_map(move |m| (0..=m).map(move |u| var * 1024 + m * 32 + u))).collect(),
         // two ids congruent modulo 2^k (k = 6..=12), 1..=3 multiples apart: x = k*64 + m*8 + which y
         "alias-pair" => (6..=12u64).flat_map(|k| (1..=3u64).flat_map(move |m| (0..2u64).map(move |w| k * 64 + m * 8 + w))).collect(),
+        // every PAIR of dimensions at their boundary values on one composite scenario:
+        // x = pair << 16 | i << 8 | j
+        "pairs" => {
+            // C09 enumerates every cut point of every image: pairs only in the thorough tier
+            if prop == "C09" && !thorough {
+                return vec![];
+            }
+            let prop = &tiered(prop, thorough);
+            let mut v = vec![];
+            let mut pair = 0u64;
+            for a in 0..PDIMS {
+                for b in a + 1..PDIMS {
+                    for i in 0..pvalues(a, prop).len() as u64 {
+                        for j in 0..pvalues(b, prop).len() as u64 {
+                            v.push(u64::from(thorough) << 40 | pair << 16 | i << 8 | j);
+                        }
+                    }
+                    pair += 1;
+                }
+            }
+            v
+        }
         // images above 64 MiB: a 1.5 M-slot store; 5 x 14 MiB of data; 70 x 1 MiB of data
         "big-image" => if prop == "C08" { vec![0, 1, 2] } else { vec![] },
         "char" => {
@@ -109,6 +131,135 @@ pub fn points(dim: &str, thorough: bool, prop: &str) -> Vec<u64> {
 }
 
 const N_TABLE: [usize; 9] = [1, 2, 3, 4, 8, 15, 16, 17, 32];
+
+// ---- the composite scenario of the pairwise sweep
+const PDIMS: usize = 9;
+const PNAMES: [&str; PDIMS] = ["capacity", "id", "alpha", "datum-length", "byte", "edges", "char", "group-size", "unread"];
+
+/// boundary values of one dimension of the composite scenario
+fn pvalues(d: usize, prop: &str) -> Vec<u64> {
+    let (prop, thorough) = match prop.strip_suffix("+") {
+        Some(p) => (p, true),
+        None => (prop, false),
+    };
+    let small = prop == "C09"; // every cut point of every image: small images only
+    match d {
+        0 => {
+            let v: Vec<u64> = vec![1, 2, 3, 4, 8, 16, 17, 31, 32, 33, 63, 64, 65, 127, 128, 129, 255, 256, 257, 300, 511, 512, 513, 1023, 1024, 1025, 1524, 1525, 4096, 4097, 16_384, 65_535, 65_536, 65_537];
+            // the quick tier keeps one capacity above 4097
+            if small {
+                v.into_iter().filter(|c| *c <= 64).collect()
+            } else if thorough {
+                v
+            } else {
+                // (the two oracles that observe the whole graph several times per call stop at 4097)
+                let mut v = vec![1, 2, 3, 16, 17, 64, 255, 256, 257, 1024, 1525, 4097];
+                if !matches!(prop, "C13" | "C19") {
+                    v.push(65_537);
+                }
+                v
+            }
+        }
+        1 => vec![0, 1, 2, 7, 15, 16, 31, 32, 63, 64, 127, 128, 255, 256, 257, 511, 512, 1023, 1024, 4095, 4096, 65_535],
+        2 => vec![0, 1, 9, 10, 99, 100, 127, 128, 255, 256, 65_535, 65_536, 1 << 31, (1 << 32) - 1, 1 << 32, 1 << 53, 1 << 63, u64::MAX],
+        3 => {
+            let v: Vec<u64> = vec![0, 1, 7, 8, 9, 15, 16, 17, 31, 32, 33, 63, 64, 65, 255, 256, 257, 1364, 1365, 2730, 4095, 4096, 4097, 65_535, 65_536, 65_537];
+            if small { v.into_iter().filter(|c| *c <= 257).collect() } else if thorough { v } else { v.into_iter().filter(|c| *c <= 4097 || *c == 65_536).collect() }
+        }
+        4 => vec![0, 1, 0x20, 0x2D, 0x7F, 0x80, 0xFF],
+        5 => vec![0, 1, 2, 3, 7, 8, 9, 15, 16, 17, 31, 32],
+        6 => {
+            let text_parsed = matches!(prop, "C18" | "C20" | "C14");
+            let plain = matches!(prop, "C03" | "C04");
+            ['q', 'A', '0', '-', '_', 'é', 'ρ', 'Р', '中', '𝜑', '\u{10430}', '\u{a0}', '\u{3000}', '\u{feff}', '\u{301}']
+                .into_iter()
+                .filter(|c| if text_parsed { c.is_alphanumeric() } else if plain { !c.is_whitespace() && !c.is_control() } else { true })
+                .map(|c| c as u64)
+                .collect()
+        }
+        7 => vec![2, 3, 8, 15, 16],
+        _ => vec![0, 1, 2, 15, 16],
+    }
+}
+
+/// the value lists of the pairwise sweep depend on the tier: "C08" (quick) / "C08+" (thorough)
+fn tiered(prop: &str, thorough: bool) -> String {
+    if thorough { format!("{prop}+") } else { prop.to_string() }
+}
+
+/// which two dimensions, and which values, a point of the pairwise sweep stands for
+fn describe_pair(prop: &str, x: u64) -> String {
+    let prop = &tiered(prop, x >> 40 & 1 == 1);
+    let (pair, i, j) = ((x >> 16 & 0xFF) as usize, ((x >> 8) & 0xFF) as usize, (x & 0xFF) as usize);
+    let mut k = 0;
+    for a in 0..PDIMS {
+        for b in a + 1..PDIMS {
+            if k == pair {
+                return format!("{} = {:?} x {} = {:?}", PNAMES[a], pvalues(a, prop).get(i), PNAMES[b], pvalues(b, prop).get(j));
+            }
+            k += 1;
+        }
+    }
+    String::new()
+}
+
+fn composite(prop: &str, x: u64) -> Option<Scenario> {
+    let prop = &tiered(prop, x >> 40 & 1 == 1);
+    let (pair, i, j) = ((x >> 16 & 0xFF) as usize, ((x >> 8) & 0xFF) as usize, (x & 0xFF) as usize);
+    // defaults, then the two swept dimensions
+    let mut p: [u64; PDIMS] = [40, 5, 7, 9, 0xA7, 2, 'q' as u64, 3, 1];
+    let mut k = 0;
+    'find: for a in 0..PDIMS {
+        for b in a + 1..PDIMS {
+            if k == pair {
+                p[a] = *pvalues(a, prop).get(i)?;
+                p[b] = *pvalues(b, prop).get(j)?;
+                break 'find;
+            }
+            k += 1;
+        }
+    }
+    if prop.starts_with("C09") {
+        p[0] = 20;
+    }
+    let [cap, id, alpha, len, byte, e, ch, m, u] = p;
+    let (cap, e, m, u) = (cap as usize, e as usize, m as usize, (u as usize).min(m as usize));
+    let ch = char::from_u32(ch as u32)?;
+    let n = *N_TABLE.iter().find(|n| **n >= e.max(2))?;
+    let cfg = Cfg { n, cap };
+    let kids = e.clamp(1, 15);
+    let total = (1 + kids).max(m).min(cap);
+    let hub = id as usize % cap;
+    let v: Vec<usize> = (0..total).map(|t| (hub + t) % cap).collect();
+    let mut calls: Vec<Call> = v.iter().map(|x| Call::Add(*x)).collect();
+    if total >= 2 {
+        for t in 0..e {
+            let l = match t {
+                0 => Lab::Alpha(alpha),
+                1 => Lab::Greek(ch),
+                2 => Lab::Str(format!("a{ch}{ch}{ch}")),
+                _ => Lab::Str(format!("k{t}")),
+            };
+            calls.push(bind(hub, v[1 + t % kids.min(total - 1)], l));
+        }
+        for t in (1 + kids).min(total)..total {
+            calls.push(bind(v[t - 1], v[t], Lab::Alpha(alpha ^ 1)));
+        }
+        let mut d = pat(len as usize, 41);
+        if !d.is_empty() {
+            let mid = d.len() / 2;
+            d[mid] = byte as u8;
+        }
+        calls.push(Call::Put(v[1], d));
+    }
+    calls.push(Call::Put(hub, vec![byte as u8]));
+    for t in 0..u.min(total) {
+        calls.push(Call::Put(v[total - 1 - t], pat(1 + t, t as u8)));
+    }
+    calls.extend([Call::Kids(hub), Call::Kid(hub, Lab::Alpha(alpha)), Call::Kid(hub, Lab::Alpha(alpha ^ 256)), Call::Kid(hub, Lab::Greek(ch)), Call::Slice(hub)]);
+    feature_tail(cfg, &mut calls);
+    Some(Scenario { cfg, calls })
+}
 
 /// The scenario of one point.
 pub fn build(dim: &str, x: u64) -> Option<Scenario> {
@@ -421,7 +572,7 @@ pub fn check_point(prop: &'static str, dim: &str, x: u64) -> Option<Failure> {
 
 /// None = the point cannot be expressed for this property (skipped and counted)
 pub fn judge_point(prop: &'static str, dim: &str, x: u64) -> Option<Option<Failure>> {
-    let mut s = build_for(dim, x, matches!(prop, "C01" | "C02" | "C03" | "C04" | "C05" | "C06"))?;
+    let mut s = if dim == "pairs" { composite(prop, x)? } else { build_for(dim, x, matches!(prop, "C01" | "C02" | "C03" | "C04" | "C05" | "C06"))? };
     if dim == "big-image" {
         return Some(big_image(&s, x));
     }
@@ -503,7 +654,8 @@ pub fn judge_point(prop: &'static str, dim: &str, x: u64) -> Option<Option<Failu
     };
     Some(f.map(|mut f| {
         f.prop = prop.into();
-        f.detail = format!("sweep {dim} = {x}: {}", f.detail.chars().take(700).collect::<String>());
+        let what = if dim == "pairs" { format!("{x} ({})", describe_pair(prop, x)) } else { x.to_string() };
+        f.detail = format!("sweep {dim} = {what}: {}", f.detail.chars().take(700).collect::<String>());
         f
     }))
 }
@@ -622,9 +774,10 @@ impl Engine for SweepEngine {
     fn render(&self, _: &u8) -> Value {
         let dims: Vec<Value> = dims_for(self.prop)
             .into_iter()
+            .filter(|d| !points(d, self.thorough, self.prop).is_empty())
             .map(|d| {
                 let p = points(d, self.thorough, self.prop);
-                let sample = build(d, p[p.len() / 2]).map(|s| render_calls(s.cfg, &s.calls)).unwrap_or_default();
+                let sample = if d == "pairs" { composite(self.prop, p[p.len() / 2]) } else { build(d, p[p.len() / 2]) }.map(|s| render_calls(s.cfg, &s.calls)).unwrap_or_default();
                 json!({"dimension": d, "points": p.len(), "sample_point": p[p.len() / 2], "sample_scenario": sample.chars().take(400).collect::<String>()})
             })
             .collect();
